@@ -78,7 +78,7 @@ def jobs_for(tier):
     if tier == 'quick':
         tpls = [BY_ID[i] for i in QUICK_IDS]
     else:
-        tpls = [t for t in corpus.TEMPLATES if 'heavy' not in t['feats']] + EXTRA + corpus.generated()
+        tpls = [t for t in corpus.TEMPLATES if not (t['feats'] & {'heavy', 'spill'})] + EXTRA + corpus.generated()
     if tier == 'quick':
         tpls = tpls + corpus.generated(quick=True)
     for t in tpls:
